@@ -4,8 +4,9 @@ Decided by two input-space specifications:
   spec/SourceLayout.tla  function definitions as sequences of physical lines (all layouts with at most `Budget`
                          deviations from the plain layout), with Python's logical-line structure, string values
                          and the reference dedent;
-  spec/LambdaSelect.tla  1..3 lambda expressions with placement, line spans and parameter lists, with the expected
-                         result of recovering the source of each lambda object.
+  spec/LambdaSelect.tla  1..3 lambda expressions with placement, line spans and parameter lists, optionally passed
+                         through functools.wraps(W) (object carries __wrapped__: own vs reported parameters), with
+                         the expected result of recovering the source of each lambda object.
 TLC enumerates both spaces completely (BFS) and prints one JSON record per terminal state; vf/c15_layout.py and
 vf/c15_lambda.py turn them into real modules, validate the model against CPython's own parser (MachineryError on
 disagreement) and compare with malt.pyct.parser.parse_entity.  Failing cases are classified by descending through
@@ -46,21 +47,30 @@ CONSTANTS
  Sigs = {"none", "x", "y", "xy", "xd", "va", "kw", "po", "ko"}
  Sigs3 = {%(sigs3)s}
  Ctxs = {"mod", "fun"}
+ WSigs = {%(wsigs)s}
+ SigsW = {%(sigsw)s}
+ MaxWrap = %(maxwrap)d
+ MaxLW = %(maxlw)d
 INVARIANT SelfCandidate
 INVARIANT ResolvableUnique
 INVARIANT Nesting
 INVARIANT PreOrder
 INVARIANT Statements
+INVARIANT Wrapping
 INVARIANT Emit
 CHECK_DEADLOCK FALSE
 """
 TIERS = {
     'quick': dict(layout=dict(budget=3, maxbody=5, maxdepth=3, units='"s4", "s2", "t1"',
                               strkinds='"plain", "raw", "bytes", "f", "rf"'),
-                  lam=dict(maxl=2, sigs3='"x"'), tlc_workers=3, procs=6),
+                  lam=dict(maxl=2, sigs3='"x"', wsigs='"none", "x", "y", "va"', sigsw='"none", "x", "y", "va"',
+                           maxwrap=1, maxlw=2), tlc_workers=3, procs=6),
     'thorough': dict(layout=dict(budget=4, maxbody=5, maxdepth=3, units='"s4", "s2", "t1", "t2"',
                                  strkinds='"plain", "raw", "bytes", "f", "rb", "rf"'),
-                     lam=dict(maxl=3, sigs3='"x", "y", "po", "xd"'), tlc_workers=4, procs=8),
+                     lam=dict(maxl=3, sigs3='"x", "y", "po", "xd"',
+                              wsigs='"none", "x", "y", "xy", "va", "kw"',
+                              sigsw='"none", "x", "y", "va", "kw", "po"', maxwrap=1, maxlw=2),
+                     tlc_workers=4, procs=8),
 }
 # every line kind / attribute the specification can write must occur in the enumeration (vacuity)
 NEED_KINDS = {'ctx', 'deco', 'decoopen', 'decoarg', 'def1', 'defone', 'defopen', 'sigmid', 'sigclose', 'defbs',
@@ -173,6 +183,13 @@ def check_lambdas(rep, recs, procs):
     if exps != {'found', 'found-or-unsupported'} or not any('semi' in r['sep'] for r in recs):
         raise common.MachineryError('vacuity: LambdaSelect.tla must produce resolvable and ambiguous lambdas and '
                                     'several statements on one line (got %s)' % sorted(exps))
+    # ... and lambda objects that went through functools.wraps: with a rival that has the wrapped function's
+    # parameter names and without one (resolvable and not; a decoy next to a twin needs three lambdas)
+    wrapped = {(d, e) for r in recs for w, d, e in zip(r['wr'], r['decoy'], r['exp']) if w != 'no'}
+    if not wrapped >= {(True, 'found'), (False, 'found'), (False, 'found-or-unsupported')}:
+        raise common.MachineryError('vacuity: LambdaSelect.tla must produce wrapped lambdas with and without a rival '
+                                    'named like the wrapped function (got %s)' % sorted(wrapped))
+    rep.set('lambda_wrapped_with_decoy', sum(1 for r in recs for d in r['decoy'] if d))
     cl = M.Classifier(verdicts, by_key)
     for key, i, (rawsig, what), o in found:
         sig, m = cl.signature(key, i)
